@@ -38,6 +38,9 @@ def setup():
 # ---------------------------------------------------------------- generators
 
 def gen(stratum, rng, tier):
+    if stratum == "uf-random" and rng.random() < 0.01:
+        # no element at all: a partition of the empty set has no component
+        return {"kind": "uf", "n": 0, "ops": [(rng.choice("qsg"), 0, 0) for _ in range(rng.randint(1, 4))]}
     if stratum == "uf-random":
         n = rng.randint(1, 12)
         ops = []
@@ -107,11 +110,16 @@ def gen(stratum, rng, tier):
         return {"kind": "uf", "n": n, "ops": ops}
     if stratum in ("ft-random", "ft-size-ctor"):
         n = rng.randint(1, 12)
-        mode = rng.choice(["int", "dyadic"])  # prefix() accumulates in float: keep values exactly representable
+        # prefix() accumulates in float: keep values exactly representable.  "tiny": integer multiples of 2**-45 ..
+        # 2**-60 (sums stay exact) - an array holding small units is an array like any other
+        mode = rng.choice(["int", "dyadic", "dyadic", "tiny"])
+        unit = 2.0 ** rng.choice([-45, -52, -60])
 
         def num():
             if mode == "int":
                 return rng.randint(-9, 9)
+            if mode == "tiny":
+                return rng.randint(-64, 64) * unit
             return rng.randint(-64, 64) / 8.0
 
         init = n if stratum == "ft-size-ctor" else [num() for _ in range(n)]
